@@ -46,9 +46,12 @@ PROP = dict(
                "pushes (instruction pointer offset - 1), StackOverflow at 1024.",
     level_note="`table_ok` (the jump table answers is_valid(t) exactly for the valid destinations of the original code, for every usize t; "
                "original_len <= padded length) is a PRECONDITION of the proof.  It is established by analysis::to_analysed/analyze, a "
-               "raw-pointer loop outside Verus, ONLY under the BOUNDED Kani check (kinterp c04::table_len*: code length <= 5, all "
-               "contents) -- reported under bounded_obligations, never counted as proved; for longer code it rests on the uniformity "
-               "of the loop, not on a proof.  JumpTable::is_valid itself (`pc < len && bits[pc]`) is NOT verified by Verus: "
+               "raw-pointer loop outside Verus, ONLY under the BOUNDED Kani check (kinterp c04::*: all contents only for the EMPTY "
+               "code; beyond that seven code shapes with concrete opcode positions -- PUSH1/PUSH2/PUSH32 followed by JUMPDEST, "
+               "PUSH1/PUSH2/PUSH31/PUSH32 truncated by the end of the code -- and all immediate-data bytes symbolic) -- reported "
+               "under bounded_obligations, never counted as proved; for every other code it rests on the uniformity of the loop, not "
+               "on a proof.  The intended bound (all byte strings of length <= 5) is NOT reachable: L = 1 needs > 13 min, L = 2 "
+               "exhausts 12 GB (bitvec's pointer<->integer casts under a symbolic walk).  JumpTable::is_valid itself (`pc < len && bits[pc]`) is NOT verified by Verus: "
                "JumpTable = Arc<bitvec::BitVec<u8>> cannot be declared to Verus (declaring BitVec imports IntoIterator impls whose "
                "item type has a sealed private supertrait, wyz::comu::Mutability); the unit only NAMES its result jt_valid(table, pc), "
                "and the Kani harnesses observe the built table through this very function, including positions at and beyond the "
